@@ -33,7 +33,10 @@ SCHEDULES = [("seed", 1), ("seed", 2), ("seed", 3), ("preset", "identity"), ("pr
 
 def gen_cases(tier, seed):
     n = 400 if tier == "quick" else 40000
-    return [{"seed": seed * 100069 + i, "nmax": 40 if tier == "quick" or i % 10 else 400} for i in range(n)]
+    cases = [{"seed": seed * 100069 + i, "nmax": 40 if tier == "quick" or i % 10 else 400} for i in range(n)]
+    if tier == "thorough":
+        cases.append({"kind": "repo-tests", "seed": seed, "_cost": 500})
+    return cases
 
 
 def run_generation(res, cfg, jds, sched, oracles, alg_rec=None, jds_live=None):
@@ -69,7 +72,15 @@ def run_generation(res, cfg, jds, sched, oracles, alg_rec=None, jds_live=None):
     return rec, out
 
 
-def run_case(case, oracles=("conservation",), custom_share=0.35, force_special=False):
+def run_case(case, oracles=("conservation",), custom_share=0.35, force_special=False, ID=ID):
+    if case.get("kind") == "repo-tests":
+        from ..repotests import run as _run_repo_tests
+        res = Result()
+        _run_repo_tests(ID, res)
+        res.nontrivial = True
+        res.digest = "repo-tests"
+        res.sample = {"kind": "repo-tests", "notes": res.notes[:2]}
+        return res
     res = Result()
     rng = random.Random(case["seed"])
     if rng.random() < custom_share:
